@@ -134,3 +134,10 @@ fn add_comment(had_comment: &mut bool, javadoc: &mut Action<JavadocMapping>, lin
 		Ok(())
 	}
 }
+
+
+/// Verification hook: the tiny-diff parser over any reader (the public entry point only takes a path).
+#[cfg(feature = "verif")]
+pub fn verif_read(reader: impl Read) -> Result<MappingsDiff> {
+	read(reader)
+}
